@@ -21,6 +21,7 @@ EXPLANATION = ("Necessary structural clauses of C02 decided from MIR/HIR facts a
                " (R1 fold) the sign-folding helper shifts under a comparison with a constant bound; (R3 array-length-measured) the value sizing the array length column is `<array>.size` on every arm; (R10) reader property offsets are the running sum of the sizes before, read before the accumulator is advanced."
                ' Added later: (R11) writer and reader agree on where a variant ends; (R12) the inline prefix of an array is bounded by 31 before it is packed; (R13) entries equal on every sort key compare Equal; (R14) sizes are compared before they are narrowed (reader); (R15) every value handed to a store handle is registered in the store; (R8) the offset width comes from the total size only. (R16) the declared width of an integer column comes from the sizing pass alone. (R5) a window handed on as a plain range begins at offset() and spans count() entries; (R17) every value counted in Property::process is also sized on every path.')
 EXPLANATION += ' Batch 11: (R18) the data block and the offset table of a value store are both produced by walking sorted_indirect.'
+EXPLANATION += ' Batch 12: (R19) the width of a column is needed_bytes of the maximum seen, returned as it is (no rounding to a native width).'
 ASSUMPTIONS = ["byteorder read_int sign-extends", "rustc MIR/HIR construction and trait resolution", "reference table for the entry encoding"]
 
 SIGNED = r"<(i8|i16|i32|i64|i128|isize)>"
@@ -937,7 +938,31 @@ def r18_values_are_described_in_the_order_they_are_written(cx, rule="R18"):
               "%s::%s takes each value from data[k] with k read from sorted_indirect (%d lookups; data walked or indexed directly at lines %s)" % (ty, item, looked_up, direct or "none"))
 
 
+def r19_width_of_a_column_is_the_sizing_itself(cx):
+    """'values of any magnitude read back': the width of a column is what the sizing found -- `Fixed(w)` gives w, `Auto(max)`
+    gives needed_bytes(max), and nothing is done to the result (no rounding up to a "native" width, no minimum): the same
+    conversion sizes the length field of an array, whose width is packed on two bits of the type byte."""
+    F = cx.F
+    fs = [f for f in F.live_fns if "blocks" in f and re.search(r"From<.*PropertySize<T>> for .*ByteSize>::from$", f["name"])]
+    if len(fs) != 1:
+        raise AnchorLost("impl From<PropertySize<T>> for ByteSize: %d bodies" % len(fs))
+    f = fs[0]
+    b = F.body(f)
+    nb = b.calls(r"needed_bytes::<")
+    other = [callee_str(t).split("::<")[0] for i, t in b.calls(r".") if not b.is_cleanup(i) and not call_is(t, r"needed_bytes::<") and not call_is(t, r"ops::Drop|drop_in_place")]
+    direct = len(nb) == 1 and (nb[0][1]["dest"]["l"] in b.whole_copies({0}) | {0} or 0 in b.whole_copies({nb[0][1]["dest"]["l"]}))
+    consts = sorted({x[1] for x in b.origins(0) if x[0] == "const" and isinstance(x[1], int) and not isinstance(x[1], bool)})
+    built = sorted({x[1].split("::")[-1] for x in b.origins(0) if x[0] == "variant"})
+    # a ByteSize built here (a literal variant), or a branch on the width found, is a second opinion on the sizing
+    branches = [b.ln(i) for i in range(b.n) if b.term(i)["k"] == "switch" and len(nb) == 1 and ("call", nb[0][0]) in b.origins(b.term(i)["op"], through_calls=False)]
+    direct = direct and not built and not branches
+    consts = consts + built
+    cx.ob("R19", "R19/ByteSize.from/the-sizing-itself", direct and not other and not consts, f,
+          "Auto(max) becomes needed_bytes(max) and that is the answer (returned as it is: %s; other calls: %s; constants in the answer: %s)" % (direct, other or "none", consts or "none"))
+
+
 RULES = [
+    ("R19", r19_width_of_a_column_is_the_sizing_itself, 1),
     ("R18", r18_values_are_described_in_the_order_they_are_written, 3),
     ("R17", r17_every_value_takes_part_in_the_sizing, 1),
     ("R16", r16_declared_width_comes_from_the_sizing_alone, 2),
